@@ -1,6 +1,7 @@
 package main
 
 import (
+	"bytes"
 	"context"
 	"fmt"
 
@@ -62,26 +63,64 @@ func runTable(r *ev.Run) {
 					fmt.Sprintf("IsNoResponseCode(code=%d.%02d, value=%d) = %v, RFC 7967 says suppressed=%v", code>>5, code&31, v, err, want),
 					map[string]any{"op": "IsNoResponseCode", "code": c, "value": v})
 			}
-			// (b) through the response writer, the option being carried by the request
-			buf := make([]byte, 16)
-			reqOpts := make(message.Options, 0, 4)
-			reqOpts, _, _ = reqOpts.SetUint32(buf, message.NoResponse, v)
-			resp := p.AcquireMessage(context.Background())
-			w := responsewriter.New(resp, relClient{p}, reqOpts...)
-			werr := w.SetResponse(codes.Code(code), message.TextPlain, nil)
-			evals++
-			if (werr != nil) != want {
-				kind := "accepted-but-must-be-refused"
-				if !want {
-					kind = "refused-but-must-be-accepted"
+			// (b) through the response writer, the option being carried by the request - alone, behind lower-numbered
+			// options, in front of higher-numbered ones (e.g. Request-Tag 292, an unknown elective 2049), or both
+			for place := 0; place < 4; place++ {
+				buf := make([]byte, 64)
+				reqOpts := make(message.Options, 0, 8)
+				used := 0
+				add := func(id message.OptionID, val []byte) {
+					var n int
+					reqOpts, n, _ = reqOpts.SetBytes(buf[used:], id, val)
+					used += n
 				}
-				r.Violate(fmt.Sprintf("SetResponse/%s/class=%s", kind, classSig(code)),
-					fmt.Sprintf("ResponseWriter.SetResponse(code=%d.%02d) for a request with No-Response=%d returned %v, RFC 7967 says refused=%v", code>>5, code&31, v, werr, want),
-					map[string]any{"op": "SetResponse", "code": c, "value": v})
+				if place&1 != 0 {
+					add(message.URIPath, []byte("a"))
+				}
+				var n int
+				reqOpts, n, _ = reqOpts.SetUint32(buf[used:], message.NoResponse, v)
+				used += n
+				if place&2 != 0 {
+					add(message.OptionID(292), []byte{1})
+					add(message.OptionID(2049), []byte("x"))
+				}
+				tok := message.Token{0x20, byte(c)}
+				resp := p.AcquireMessage(context.Background())
+				resp.SetToken(tok) // the transports put the request token into the response before the handler runs
+				w := responsewriter.New(resp, relClient{p}, reqOpts...)
+				werr := w.SetResponse(codes.Code(code), message.TextPlain, nil)
+				evals++
+				if (werr != nil) != want {
+					kind := "accepted-but-must-be-refused"
+					if !want {
+						kind = "refused-but-must-be-accepted"
+					}
+					r.Violate(fmt.Sprintf("SetResponse/%s/class=%s", kind, classSig(code)),
+						fmt.Sprintf("ResponseWriter.SetResponse(code=%d.%02d) for a request with No-Response=%d (option placement %d: bit0 = behind Uri-Path, bit1 = in front of options 292 and 2049) returned %v, RFC 7967 says refused=%v", code>>5, code&31, v, place, werr, want),
+						map[string]any{"op": "SetResponse", "code": c, "value": v, "placement": place})
+				}
+				if werr == nil && w.Message().Code() != codes.Code(code) {
+					r.Violate("SetResponse/accepted-but-code-not-set", fmt.Sprintf("SetResponse(code=%d) accepted but message code is %v", c, w.Message().Code()), map[string]any{"op": "SetResponse", "code": c, "value": v})
+				}
+				if werr != nil {
+					// (c) the handler falls back to a response of a class that is not suppressed: it must be accepted
+					// and still be the response to THIS request (token untouched)
+					for _, fb := range []codes.Code{codes.Content, codes.BadRequest, codes.InternalServerError, codes.Code(3 << 5)} {
+						if specSuppressed(uint8(fb), v) {
+							continue
+						}
+						evals++
+						if err2 := w.SetResponse(fb, message.TextPlain, nil); err2 != nil {
+							r.Violate("SetResponse/fallback-refused", fmt.Sprintf("after SetResponse(%v) was refused (No-Response=%d), SetResponse(%v) - a class that is not suppressed - was refused too: %v", codes.Code(code), v, fb, err2), map[string]any{"op": "SetResponse-fallback", "code": c, "value": v})
+						} else if w.Message().Code() != fb || !bytes.Equal(w.Message().Token(), tok) {
+							r.Violate("SetResponse/fallback-response-damaged", fmt.Sprintf("after a refused SetResponse(%v) (No-Response=%d) the accepted fallback response is code=%v token=%x, want code=%v token=%x", codes.Code(code), v, w.Message().Code(), []byte(w.Message().Token()), fb, []byte(tok)), map[string]any{"op": "SetResponse-fallback", "code": c, "value": v})
+						}
+						break
+					}
+				}
+				p.ReleaseMessage(w.Message())
 			}
-			if werr == nil && w.Message().Code() != codes.Code(code) {
-				r.Violate("SetResponse/accepted-but-code-not-set", fmt.Sprintf("SetResponse(code=%d) accepted but message code is %v", c, w.Message().Code()), map[string]any{"op": "SetResponse", "code": c, "value": v})
-			}
+			w := responsewriter.New(p.AcquireMessage(context.Background()), relClient{p})
 			p.ReleaseMessage(w.Message())
 		}
 	}
